@@ -242,6 +242,10 @@ class IH5MFRecord(IH5Record):
                 copyfile(orig_mf, self._manifest_filepath(file))
             else:
                 self.manifest.save(self._manifest_filepath(file))
+        else:
+            # no manifest to inherit: the one written for the temporary record
+            # does not belong to the merged container (it got our user block)
+            self._manifest_filepath(file).unlink(missing_ok=True)
 
     # Override to prevent merge if a stub is present
     def merge_files(self, target: Path):
